@@ -5,7 +5,7 @@ import json, os, subprocess, sys
 ROOT = os.path.dirname(os.path.dirname(os.path.abspath(__file__)))
 
 # id -> (implemented, category, technique, level text, note, design_ref)
-W1 = "4 planners x 6 space families x generated worlds / parameters / seeds under the virtual clock, planner-RNG and scripted sample sequences (16 000 runs quick, 300 000 thorough; C03: 8 000 / 120 000)"
+W1 = "4 planners x 6 space families x generated worlds / parameters / seeds under the virtual clock, planner-RNG and scripted sample sequences (16 000 runs quick, 1.5 million thorough; C03: 8 000 / 600 000), plus call histories (re-setup with a new checker on the same problem object, repeated solve, replaced problems, user-mutated step / radius fields)"
 CHECKS = {
     "C01": (True, "exploration",
             "runtime monitor at the validity-checker boundary: every state of every returned path re-evaluated with the pure validity function; invalid-start cases checked against the required error",
@@ -34,76 +34,76 @@ CHECKS = {
             "DESIGN.md section 5 C05"),
     "C06": (True, "exploration",
             "online deadline monitor on sampler events under a virtual clock (cost model), soundness on infeasible-by-construction worlds, query-budget trip as a logical-step progress bound",
-            "12 000 (quick) / 200 000 (thorough) solve / construct_roadmap calls with time limits 0..5000 ticks where every validity query and sampler call costs one tick: no iteration may begin after first-clock-read + T; no path may be returned in a world that is infeasible by construction (goal sealed by a shell >= 2 lvs thick, start sealed in, goal region invalid); no call may exceed a query budget >= 10x any terminating execution. Liveness is restated as this bounded-step property.",
+            "12 000 (quick) / 1 000 000 (thorough) solve / construct_roadmap calls (a quarter of them warm-started: same planner and problem object first used in an empty world) with time limits 0..5000 ticks where every validity query and sampler call costs one tick: no iteration may begin after first-clock-read + T; no path may be returned in a world that is infeasible by construction (goal sealed by a shell >= 2 lvs thick, start sealed in, goal region invalid); no call may exceed a query budget >= 10x any terminating execution. Liveness is restated as this bounded-step property.",
             "Trusted: the clock shim (hook H2/H3; a solve that never read it is reported inconclusive), triangle inequality of the metric for the infeasibility argument. Known finding K-2 (resolution fraction <= 0).",
             "DESIGN.md section 5 C06"),
     "C07": (True, "exploration",
             "differential runtime check: two fresh instances with the same seed driven through the same call history, compared at every call; prefix consistency across iteration budgets; real vs virtual time",
-            "6 000 / 100 000 call histories (incl. repeated solve, re-setup, solve before setup, PRM set_problem_definition and re-construction, goal samplers that consume the generator) are executed twice and compared bit for bit (paths), by variant (errors) and by snapshot hash; plus prefix pairs and real-time runs.",
+            "6 000 / 400 000 call histories (30 % with scripted samples full of duplicates) (incl. repeated solve, re-setup, solve before setup, PRM set_problem_definition and re-construction, goal samplers that consume the generator) are executed twice and compared bit for bit (paths), by variant (errors) and by snapshot hash; plus prefix pairs and real-time runs.",
             "Trusted: deterministic harness callbacks; both instances share a thread so thread-local / OS entropy shows up as a difference.",
             "DESIGN.md section 5 C07"),
     "C08": (True, "fault_enumeration",
             "reference-model monitor of the planner API state machine over call histories, sampler fault injection at every call index k < 12, out-of-range parameters, panic monitor over well-formed runs (thorough: + Miri)",
-            "Every call of random histories (length <= 8; thorough: all sequences of length <= 5) is compared with a sequential model (uninitialised / unsampled / invalid start / answers the installed problem); uniform and goal samplers fail at call k for every k < 12; goal bias in {-0.1, 1.5, NaN, +-inf}; empty start list; 4 000 / 60 000 generated scenarios run under the panic monitor. Panics keyed on (planner, injected trigger) are the known finding K-3; any other panic or model mismatch is a violation.",
+            "Every call of 8 000 / 250 000 random histories (length <= 8; thorough: all sequences of length <= 5 on 48 worlds) is compared with a sequential model (uninitialised / unsampled / invalid start / answers the installed problem); uniform and goal samplers fail at call k for every k < 12; goal bias in {-0.1, 1.5, NaN, +-inf}; empty start list; negative / zero numeric parameters; 4 000 / 300 000 generated scenarios run under the panic monitor. Panics keyed on (planner, injected trigger) are the known finding K-3; any other panic or model mismatch is a violation.",
             "Trusted: the reference model (40 lines), catch_unwind. After a panic the history stops.",
             "DESIGN.md section 5 C08"),
     "C15": (True, "exploration",
             "structural invariant hook checked at every quiescent point of single-stepped planners (snapshot H4), edge coverage from the query log",
-            "RRT / RRT-Connect / RRT* are single-stepped (solve(0) under the virtual clock = one iteration) through scripted samples over alphabets with duplicates, seam / antipodal and boundary states (3 000 / 40 000 random scripts, all scripts up to depth 4 over a 6-letter alphabet on 6 / 48 worlds); after every step the snapshot is checked for parents in range, single root = start / goal sample, acyclicity (bounded walk), node validity, edge length and motion-check coverage.",
+            "RRT / RRT-Connect / RRT* are single-stepped (solve(0) under the virtual clock = one iteration) through scripted samples over alphabets with duplicates, seam / antipodal and boundary states (3 000 / 200 000 random scripts, 30 % with a re-setup half-way, 25 % with a step that equals a letter distance exactly; all scripts up to depth 4 - thorough: 5 on a quarter of the worlds - over a 6-letter alphabet on 6 / 96 worlds); after every step the snapshot is checked for parents in range, single root = start / goal sample, acyclicity (bounded walk), node validity, edge length and motion-check coverage.",
             "Trusted: snapshot accessor (read-only clone); space's distance for coverage.",
             "DESIGN.md section 5 C15"),
     "C16": (True, "exploration",
             "transition monitor over consecutive snapshots + the logged sample of each single-stepped iteration; Hoeffding bound on goal-sample frequency",
-            "Each observed transition is checked against the nearest-node / one-step rule (ties existential), at most one node per tree, rejection only after a rejected query, RRT-Connect balance / connect / termination rules; goal-bias frequencies over 18 / 72 long seeded runs against Hoeffding at alpha 1e-9.",
+            "Each observed transition is checked against the nearest-node / one-step rule (ties existential), at most one node per tree, rejection only after a rejected query, RRT-Connect balance / connect / termination rules; goal-bias frequencies over 18 / 72 long seeded runs (half of them with the public goal_bias field changed after setup) against Hoeffding at alpha 1e-9.",
             "Trusted: tolerances of DESIGN.md section 3.",
             "DESIGN.md section 5 C16"),
     "C17": (True, "exploration",
             "transition monitor for RRT* (snapshot with costs before / after, per-step query log) plus RRT-vs-RRT* differential on the same seed",
-            "For every RRT* extension: cost = parent cost + edge, parent in the candidate set, no cheaper neighbour skipped unless a query on its motion was rejected, parent link and rewired links validated in that iteration, exactly the neighbours that become cheaper are re-parented, others untouched, recorded cost >= true branch length; 1 500 / 20 000 RRT-vs-RRT* pairs (same end state, RRT* not longer).",
+            "For every RRT* extension: cost = parent cost + edge, parent in the candidate set, no cheaper neighbour skipped unless a query on its motion was rejected, parent link and rewired links validated in that iteration, exactly the neighbours that become cheaper are re-parented, others untouched, recorded cost >= true branch length; 1 500 / 100 000 RRT-vs-RRT* pairs (same end state, RRT* not longer).",
             "Trusted: tolerances; the existential treatment of tied nearest nodes.",
             "DESIGN.md section 5 C17"),
     "C18": (True, "exploration",
             "roadmap snapshot compared with the accepted samples of the event log, graph invariants, link completeness, reference multi-source BFS for every query",
-            "6 000 / 80 000 PRM life cycles with exact sample budgets (virtual clock), scripted (incl. all scripts to depth 4) and planner-RNG samples, radii from isolated nodes to complete graphs, obstacle-free and obstructed worlds, replaced problems.",
+            "6 000 / 250 000 PRM life cycles (incl. a second life after a new setup) with exact sample budgets (virtual clock), scripted (incl. all scripts to depth 4) and planner-RNG samples, radii from isolated nodes to complete graphs, obstacle-free and obstructed worlds, replaced problems.",
             "Trusted: reference BFS; start links bracketed between certain and possible in obstructed worlds (exact in obstacle-free ones).",
             "DESIGN.md section 5 C18"),
     "C09": (True, "exploration",
             "runtime oracle over executed distance calls: metric axioms + independent reference on exhaustive lattice triples and seeded random triples",
-            "Every distance call made by the workload (all ordered triples of a 56/110-value special lattice per space setting, plus 2e4/4e5 random triples, 28-74 space settings incl. compounds with weights 0/1e-3/1/50 and the erased *_dyn interface) is checked online against the metric axioms, the diameter bound, representation independence and an independent atan2-based reference. Exploration: holds on the executions observed, nothing more.",
+            "Every distance call made by the workload (all ordered triples of a 56/150-value special lattice per space setting, plus 2e4/1.5e6 random triples, 35-81 space settings (bounded and unbounded) incl. compounds with weights 0/1e-3/1/50 and the erased *_dyn interface) is checked online against the metric axioms, the diameter bound, representation independence and an independent atan2-based reference. Exploration: holds on the executions observed, nothing more.",
             "Trusted: the reference formulas, IEEE-754 arithmetic, tolerances stated in the evidence. Inputs above 1e100 in R^n are outside the explored domain.",
             "DESIGN.md section 5 C09"),
     "C10": (True, "exploration",
             "runtime oracle over executed interpolate calls: endpoint, constant-speed law, canonical form, reversal, erased-interface equality",
-            "Every interpolate call of the workload (all ordered pairs of a 60/120-value special lattice x 10 values of t per space setting, plus seeded random pairs) is checked online against t*d / (1-t)*d, canonical form, I(b,a,1-t) and the *_dyn interface. Holds on the executions observed.",
+            "Every interpolate call of the workload (all ordered pairs of a 60/150-value special lattice x 10 values of t per space setting (bounded and unbounded, states outside the bounds included), plus seeded random pairs; the output state starts from an unrelated scratch state) is checked online against t*d / (1-t)*d, canonical form, I(b,a,1-t) and the *_dyn interface. Holds on the executions observed.",
             "Trusted: the space's own distance for measuring (judged separately by C09), stated tolerances (5e-6 for the SO3 normalised-LERP branch).",
             "DESIGN.md section 5 C10"),
     "C11": (True, "exploration",
             "runtime assertions on sample_uniform / enforce_bounds / satisfies_bounds executions with an independent bounds test and a draw-budgeted generator",
-            "Hostile states (far outside, on and one ulp around the boundary, non-canonical angles, zero and non-unit quaternions) are enforced and 2e3/4e4 samples are drawn per constructible bound setting (about 150/400 settings over all six spaces); each execution is checked for agreement of the three operations, canonical form, idempotence, an independent bounds test and absence of panics.",
+            "Hostile states (far outside, on and one ulp around the boundary, non-canonical angles, zero and non-unit quaternions) are enforced and 2e3/2e5 samples are drawn per constructible bound setting (about 170/420 settings over all six spaces, SO3 cones from 1e-3 rad to pi, SO2 intervals a few ulps wide or touching +-pi); each execution is checked for agreement of the three operations, canonical form, idempotence, an independent bounds test and absence of panics.",
             "Trusted: reference bounds test with 1e-9 (2.5e-7 for SO3) allowance. SO3 cones in [1e-9,0.1) rad are enforced but not sampled.",
             "DESIGN.md section 5 C11"),
     "C12": (True, "exploration",
             "exhaustive enumeration of a finite constructor-argument lattice, each execution judged by a well-formedness oracle and followed by usability probes under a panic monitor",
-            "All constructor argument tuples of the C12 lattice (about 1.9 million executions: dimension x bounds-length combinations, all ordered bound pairs over 20 special values, 939 angles, 194 481 quaternions) are executed; Ok results must store well-formed bounds and survive sampling and bounds operations without panicking, Err results must be the documented variant for a real fault. The lattice is enumerated completely; nothing is claimed outside it.",
+            "All constructor argument tuples of the C12 lattice (about 1.9 million executions quick / 71 million thorough: dimension x bounds-length combinations, all ordered bound pairs over 20 special values - thorough: all triples of pairs for 3-D boxes -, 939 angles, 194 481 quaternions) are executed; Ok results must store well-formed bounds and survive sampling and bounds operations without panicking, Err results must be the documented variant for a real fault. The lattice is enumerated completely; nothing is claimed outside it.",
             "Trusted: the well-formedness predicate written in the harness; 'Err for out-of-range but overlapping SO2 intervals' is accepted either way.",
             "DESIGN.md section 5 C12"),
     "C13": (True, "exploration",
             "differential runtime check: every compound / SE2 / SE3 operation against the same operation carried out on typed component spaces",
-            "Compound distance, interpolation, enforce, satisfies, sampling (same generator stream) and resolution are compared, bit for bit except for the 1e-12 relative distance law, with the typed component spaces for all ordered layouts of 1-2 components (quick) / 1-4 components (thorough, 2800 layouts), and SE2/SE3 against the explicit compound with weights (1,w); also through the erased interface.",
+            "Compound distance, interpolation, enforce, satisfies, sampling (same generator stream) and resolution are compared, bit for bit except for the 1e-12 relative distance law, with the typed component spaces for all ordered layouts of 1-2 components (quick) / 1-4 components (thorough, 2800 layouts), after the public weights were changed, and SE2/SE3 against the explicit compound with weights (1,w); also through the erased interface; the thorough tier adds a Miri run.",
             "Trusted: component operations (judged by C09-C12).",
             "DESIGN.md section 5 C13"),
     "C14": (True, "exploration",
             "statistical runtime monitor: DKW goodness-of-fit of large samples against exact marginal laws and two-sample DKW independence tests at alpha = 1e-9",
-            "2e5 (quick) / 2e6 (thorough) samples per setting are drawn through sample_uniform and every scalar statistic is compared with its exact law; a deviation above the DKW epsilon (7.3e-3 / 2.3e-3) is a violation with false-alarm probability below 1e-6 per run. Biases below epsilon are invisible.",
+            "2e5 (quick) / 5e6 (thorough) samples per setting (tight SO3 cones: 3e3+) are drawn through sample_uniform and every scalar statistic is compared with its exact law; a deviation above the DKW epsilon (7.3e-3 / 1.5e-3) is a violation with false-alarm probability below 1e-6 per run. Biases below epsilon are invisible.",
             "Trusted: ChaCha8 as the source of randomness; exact marginal laws derived in DESIGN.md.",
             "DESIGN.md section 5 C14"),
     "C19": (True, "exploration",
             "differential runtime check across the language boundary: the same seeded scenarios executed through oxmpl_py (Python callbacks with bit-identical arithmetic) and through the core, compared bit for bit",
-            "240 / 2400 scenarios (6 problem-definition variants x 4 planners x generated worlds / parameters / seeds) are run through the freshly built extension module; RRT / RRT-Connect / RRT* paths must equal the core's bit for bit and errors by kind, PRM paths must be sound under the same primitives; 2261 wrapper probes over the C12 lattice compare ValueError-vs-Err, distances, extents and canonicalised angles bitwise.",
+            "240 / 2400 scenarios (6 problem-definition variants x 4 planners x generated worlds / parameters / seeds) are run through the freshly built extension module; RRT / RRT-Connect / RRT* paths must equal the core's bit for bit (and make the same number of validity queries) and errors by kind, PRM paths must be sound under the same primitives; about 2300 wrapper probes over the C12 lattice compare ValueError-vs-Err, distances, extents and canonicalised angles bitwise.",
             "Trusted: CPython floats are IEEE doubles; a wall-clock time-out on the Python side makes that case inconclusive. The extension is rebuilt from /repo's working tree (cargo build -p oxmpl-py, debug profile).",
             "DESIGN.md section 5 C19"),
     "C20": (True, "fault_enumeration",
-            "fault injection in Python callbacks (raise / None / str / int / list, on a fault region or at the k-th call for k < 10) with a differential oracle against the callback that returns False in the same situations and against the core on world + region",
+            "fault injection in Python callbacks (raise - six exception classes incl. InterruptedError and KeyboardInterrupt - / None / str / int / list, on a fault region or at the k-th call for k < 10) with a differential oracle against the callback that returns False in the same situations and against the core on world + region",
             "192 / 960 groups of runs per tier on seeded scenarios over all six Python problem variants and four planners; a failing callback must give the identical path / error as one returning False and never a path through the fault region. Only the Python binding is executed: the JavaScript binding (oxmpl-js) cannot run in this image (no wasm32 target, no wasm-bindgen) - that half of the property is not covered.",
             "Trusted: determinism of the seeded planners (C07); PRM (wall-clock build) and timed-out runs are only checked for 'no state in the fault region'.",
             "DESIGN.md section 5 C20"),
